@@ -248,6 +248,8 @@ where
     }
 
     fn save_scalars(&mut self, μ: T, α: T, σ: T, iter: u32) {
+        #[cfg(clarabel_verif)]
+        crate::verif::emit(crate::verif::Event::Iteration(iter));
         self.μ = μ;
         self.step_length = α;
         self.sigma = σ;
